@@ -261,7 +261,7 @@ def finding_key(req, obs, detail):
 
 SPEC = {
     "id": "C04",
-    "gens": ["SlotTables", "FixpointTables", "PathLookup", "RankTable", "TypingTables", "HlslGenTables", "HlslIntrinsicTables",
+    "gens": ["SlotTables", "FixpointTables", "PathLookup", "TemplateConst", "RankTable", "TypingTables", "HlslGenTables", "HlslIntrinsicTables",
              "MetaTables", "CompileTables"] + LEG_GENS,
     "lean_modules": ["RsslVerif.Thm.C04"] + LEG_MODULES,
     "theorems": [T + n for n in [
@@ -276,7 +276,10 @@ SPEC = {
         "path_lookup_as_modelled", "emitPath_relative", "noCloserMatch_of_noInnerHomonym",
         "emitted_path_resolves_of_no_closer_match", "emitted_path_resolves_to_same_entity",
         "pathsResolveBack_of_no_closer_match", "machine_tables_wf", "mutant_discipline_loses_emitted_path",
-        "emitted_path_captured_witness", "namesAgree_of_pathsResolveBack", "fixpoint_expr_paths"]] + LEG_THEOREMS,
+        "emitted_path_captured_witness", "namesAgree_of_pathsResolveBack", "fixpoint_expr_paths",
+        # the kind of a template value argument through export and re-compilation (Model.FixpointTemplate)
+        "template_const_as_modelled", "emitted_literal_kind_stable", "template_instance_reelab",
+        "template_instance_reelab_stmt", "emitted_literal_kind_int32_witness", "mutant_discipline_loses_literal_kind"]] + LEG_THEOREMS,
     "harness": "c04",
     "custom": custom,
     "nontrivial": nontrivial,
